@@ -218,9 +218,9 @@ Definition tbl_cc_ok (t : list (str * str * str)) (st : step) (k : key) : bool :
   existsb (fun r => match r with (sn, kid, kt) =>
      str_eqb sn (s_name st) && str_eqb kid (k_keyid k) && str_eqb kt (k_public k) end) t.
 
-(* observable compared with the implementation:
-   "L" = LoadLinksForLayout failed, "V" = VerifyLinkSignatureThesholds failed,
-   "OK" ++ per step (in the order of first insertion) name and sorted counted key ids *)
+(* observable compared with the implementation: "REJECT" when either stage fails,
+   "OK" ++ per step (in the order of first insertion) "(name:id,id,...)" with the
+   counted key ids sorted *)
 Definition show_verified (r : amap (amap env)) : str :=
   concat_str (map (fun p => [40] ++ fst p ++ [58] ++ join [44] (ssort (akeys (snd p))) ++ [41]) r).
 
@@ -229,10 +229,29 @@ Definition c02_obs (tv : list (str * str * str)) (tc : list (str * key)) (tcc : 
   match load_all l files with
   | Ok sm =>
     match verify_thresholds (tbl_vsig tv) (tbl_get_cert tc) (tbl_cc_ok tcc) l sm with
-    | Ok r => [79; 75] ++ show_verified r
-    | Err _ => [86]
-    | Panic _ => [80]
+    | Ok r => bs "OK" ++ show_verified r
+    | Err _ => bs "REJECT"
+    | Panic _ => bs "PANIC"
     end
-  | Err _ => [76]
-  | Panic _ => [80]
+  | Err _ => bs "REJECT"
+  | Panic _ => bs "PANIC"
   end.
+
+Definition with_steps (l : layout) (steps : list step) : layout :=
+  mkLayout (l_type l) steps (l_inspect l) (l_keys l) (l_rootcas l) (l_intermediatecas l)
+           (l_expires l) (l_readme l).
+
+(* the whole layout, then every step on its own (a layout with that single step) *)
+Definition c02_obs_full (tv : list (str * str * str)) (tc : list (str * key)) (tcc : list (str * str * str))
+           (l : layout) (files : list (str * option env)) : str :=
+  bs "ALL=" ++ c02_obs tv tc tcc l files ++
+  concat_str (map (fun st => bs ";S=" ++ c02_obs tv tc tcc (with_steps l [st]) files) (l_steps l)).
+
+(* compact constructors for the generated cases files *)
+Definition env_of (w : wrapper) (sigs : list signature) (tag : str) : env :=
+  mkEnv w (PLink (mkLink [] [] [] [] [] [] [])) sigs tag.
+Definition key_of (kid tag : str) : key := mkKey kid [] [] [] tag [] [].
+Definition step_of (name : str) (pubkeys : list str) (ccs : list cert_constraint) (threshold : Z) : step :=
+  mkStep (bs "step") pubkeys ccs [] threshold name [] [].
+Definition layout_of (steps : list step) (keys : amap key) : layout :=
+  mkLayout (bs "layout") steps [] keys [] [] [] [].
